@@ -77,6 +77,9 @@ func (u *zzvU) place(fs zzvFileSpec, i int, s0 time.Time) zzvPlaced {
 	pl := zzvPlaced{readable: true, end: w1}
 	switch fs.kind {
 	case "plain":
+	case "saturated":
+		// cells at and beyond the range of a report's integers (the sums saturate; either file may come first)
+		counts = map[string]uint64{"c": ^uint64(0) - uint64(i), "d:a": 1<<63 - uint64(5+i), "s\nF": 1 << 63}
 	case "empty":
 		counts = map[string]uint64{}
 	case "active":
@@ -225,6 +228,7 @@ func zzvC07Sequential(res *vrep.Result, base string, p vrep.Params) {
 			sets = append(sets, []zzvFileSpec{a, b})
 		}
 	}
+	sets = append(sets, []zzvFileSpec{{"A", "saturated"}}, []zzvFileSpec{{"A", "plain"}, {"A", "saturated"}}, []zzvFileSpec{{"A", "saturated"}, {"A", "plain"}}, []zzvFileSpec{{"A", "saturated"}, {"A", "saturated"}}, []zzvFileSpec{{"A", "plain"}, {"B", "saturated"}})
 	sets = append(sets, []zzvFileSpec{{"A", "plain"}, {"A", "plain"}, {"B", "plain"}}, []zzvFileSpec{{"A", "plain"}, {"A", "empty"}, {"C", "plain"}},
 		[]zzvFileSpec{{"A", "plain"}, {"B", "plain"}, {"C", "plain"}}, []zzvFileSpec{{"A", "empty"}, {"A", "empty"}, {"B", "empty"}},
 		// program builds that differ in a single field stay apart
@@ -498,7 +502,7 @@ func TestVerifC07(t *testing.T) {
 	res := vrep.New("C07", p)
 	defer res.Guard()
 	base, _ := vrep.Scratch("c07")
-	res.Rule = "sequential: all file sets of size 1-2 (thorough: 3) over {2 builds} x {plain, empty, unparseable, no end time, active, boundary} + mixed 3-file sets, x prior report {none, local, ready, uploaded} x mode {local,on} x start {boundary instant, +1ns}, 3 consecutive runs each; concurrent: all schedules of 2 (thorough: 3) uploader runs at file-system-call granularity up to the preemption bound; classes = report sets / end states"
+	res.Rule = "sequential: all file sets of size 1-2 (thorough: 3) over {2 builds} x {plain, empty, unparseable, no end time, active, boundary} + mixed 3-file sets + files with cells at and beyond 2^63 (sums saturate, both file orders), x prior report {none, local, ready, uploaded} x mode {local,on} x start {boundary instant, +1ns}, 3 consecutive runs each; concurrent: all schedules of 2 (thorough: 3) uploader runs at file-system-call granularity up to the preemption bound; classes = report sets / end states"
 	res.Assumptions = []string{"counter files come from the reference writer", "the server accepts every request in this check (C08 varies it)", "one week per concurrent scenario so no ranged map has two keys"}
 	if p.Replay != "" {
 		fmt.Println("C07 replay: sequential cases are deterministic (re-run the quick check); concurrent counterexamples carry their choice sequence in the artefact")
